@@ -84,8 +84,11 @@ class Platform:
         System includes do not include the rootdir, while local includes
         do.
         """
+        # The result depends on the form of the include and, for the quoted
+        # form, on the directory of the including file.
+        key = (filename, None if is_system_include else this_path)
         try:
-            return self.found_incl[filename]
+            return self.found_incl[key]
         except KeyError:
             pass
 
@@ -100,9 +103,9 @@ class Platform:
             test_path = os.path.abspath(os.path.join(path, filename))
             if os.path.isfile(test_path):
                 include_file = test_path
-                self.found_incl[filename] = include_file
+                self.found_incl[key] = include_file
                 return include_file
 
         if include_file is None:
-            self.found_incl[filename] = None
+            self.found_incl[key] = None
             return None
